@@ -71,7 +71,7 @@ kani_unit("crypto_rp64", "winter-crypto", "crypto/src/hash/rescue/rp64_256/mod.r
       bounded="byte strings of length %d (content symbolic)" % L, timeout=900)
     for L in (0, 1, 7, 8, 56, 57, 63)
 ] + [
-    H("rp64_hash_elements_len%d_bounded" % L, ["C11"], ["Rp64_256::hash_elements"],
+    H("rp64_hash_elements_len%d_bounded" % L, ["C11", "C19"], ["Rp64_256::hash_elements"],
       "hash_elements == the documented sponge written independently in the harness (capacity word 0 = number of residues, rate words 4..11 absorbed by addition, permutation after every 8 residues and once for a partial block, digest = words 4..7)",
       bounded="lists of %d base-field elements (values symbolic; permutation double = rotation by one word plus a counter)" % L, timeout=900)
     for L in (0, 1, 7, 8, 9, 16, 17)
@@ -95,7 +95,7 @@ kani_unit("crypto_rp62", "winter-crypto", "crypto/src/hash/rescue/rp62_248/mod.r
       bounded="byte strings of length %d (content symbolic)" % L, timeout=900)
     for L in (0, 1, 7, 8, 56, 57, 63)
 ] + [
-    H("rp62_hash_elements_len%d_bounded" % L, ["C11"], ["Rp62_248::hash_elements"],
+    H("rp62_hash_elements_len%d_bounded" % L, ["C11", "C19"], ["Rp62_248::hash_elements"],
       "hash_elements == the documented sponge written independently in the harness (last capacity word = number of residues, words 0..7 absorbed by addition, permutation after every 8 residues and once for a partial block, digest = words 0..3)",
       bounded="lists of %d base-field elements (values symbolic, any representative in [0, 2M); permutation double = rotation plus length-tag word plus counter)" % L, timeout=900)
     for L in (0, 1, 7, 8, 9, 16, 17)
@@ -118,7 +118,7 @@ kani_unit("crypto_rpjive", "winter-crypto", "crypto/src/hash/rescue/rp64_256_jiv
       bounded="byte strings of length %d (content symbolic)" % L, timeout=900)
     for L in (0, 1, 7, 8, 14, 28, 29, 35)
 ] + [
-    H("rpjive_hash_elements_len%d_bounded" % L, ["C11"], ["RpJive64_256::hash_elements"],
+    H("rpjive_hash_elements_len%d_bounded" % L, ["C11", "C19"], ["RpJive64_256::hash_elements"],
       "hash_elements == the documented sponge with Hirose padding written independently in the harness (capacity word 0 = 1 iff the length is not a multiple of the rate 4; a partial block is completed by 1, 0, ..; digest = words 4..7)",
       bounded="lists of %d base-field elements (values symbolic)" % L, timeout=900)
     for L in (0, 1, 3, 4, 5, 8, 9)
